@@ -50,6 +50,7 @@ class Chooser:
 class ControlledCore(uros.Core):
     """uros.Core whose simultaneous events are ordered by a Chooser"""
     chooser = None  # set on the class before construction by the harness (launch_sim builds the Core itself)
+    observer = None  # optional callable(core) invoked after every fired event
 
     def step(self):
         q = self._queue
@@ -76,6 +77,8 @@ class ControlledCore(uros.Core):
         callbacks, event.callbacks = event.callbacks, None
         for callback in callbacks:
             callback(event)
+        if type(self).observer is not None:
+            type(self).observer(self)
         if not event._ok and not hasattr(event, "_defused"):
             exc = type(event._value)(*event._value.args)
             exc.__cause__ = event._value
